@@ -2,7 +2,7 @@ use owning_iovec::Backref;
 use owning_iovec::OwningIovec;
 use std::io::IoSlice;
 
-pub const MAXS: usize = 8;
+pub const MAXS: usize = 5;
 pub const CAP: usize = 24;
 
 pub fn byte_at(slices: &[IoSlice<'_>], j: usize) -> Option<u8> {
@@ -111,6 +111,7 @@ pub fn observe(iov: &OwningIovec<'_>, sh: &Shadow) {
     let st = total(sp);
     assert!(no_empty_slice(sp));
     assert!(sp.len() <= MAXS);
+    assert!(iov.len() <= MAXS);
     assert_eq!(iov.total_size(), sh.appended - sh.consumed);
     assert_eq!(iov.is_empty(), iov.len() == 0);
     assert!(sp.len() <= iov.len());
@@ -133,13 +134,6 @@ pub fn observe(iov: &OwningIovec<'_>, sh: &Shadow) {
     let j: usize = kani::any();
     if j < st {
         assert!(byte_at(sp, j) == Some(sh.b[sh.consumed + j]));
-    }
-    match iov.front() {
-        Some(f) => {
-            assert!(st > 0 && f.len() > 0);
-            assert_eq!(f[0], sh.b[sh.consumed]);
-        }
-        None => assert_eq!(st, 0),
     }
 }
 
